@@ -76,6 +76,15 @@ func (s *Sim) ratesActive() bool {
 }
 
 func (s *Sim) decide(c *call) string {
+	prevMut := ""
+	if c.kind == callSQL && isMutating(c.query) && queryKind(c.query) != "set_lock_timeout" {
+		if s.lastMut == nil {
+			s.lastMut = map[string]string{}
+		}
+		k := c.src + ">" + c.dst
+		prevMut = s.lastMut[k]
+		s.lastMut[k] = c.query
+	}
 	if f, ok := s.explicit[c.key]; ok {
 		return f
 	}
@@ -83,6 +92,9 @@ func (s *Sim) decide(c *call) string {
 		now := s.now()
 		for i := range s.spec.StmtFail {
 			sf := &s.spec.StmtFail[i]
+			if sf.After != "" && (prevMut == "" || !strings.HasPrefix(prevMut, sf.After)) {
+				continue
+			}
 			if sf.Host == c.dst && now >= ms(sf.FromMs) && now < ms(sf.ToMs) && strings.HasPrefix(c.query, sf.Prefix) {
 				s.stmtFailHit = true
 				if sf.Errno == 0 {
